@@ -360,11 +360,21 @@ class _patched:
         _ops.DEFAULT_CHUNKSIZE = self.dcs
 
 
-def _payload(kind, col, form, h5=False, dt='int32'):
-    """kind 'n' numeric / 'i' indexed string;  form 'a' ndarray / 'f' field"""
+def _payload(kind, col, form, h5=False, dt='int32', at=None):
+    """kind 'n' numeric / 'i' indexed string;  form 'a' ndarray / 'f' field;  at: a named HDF5 column of the history's world"""
     if kind == 'i':
         return _ifield(col, h5)
+    if at is not None and form != 'a':
+        return _world_col(at, _tarr(col, dt), dt)
     return _tarr(col, dt) if form == 'a' else _nfield(col, dt, h5)
+
+
+def _pat(case, role, k=None):
+    """where payload k of `role` lives (case['at'][role]: one place, or a list of places / None per payload)"""
+    a = (case.get('at') or {}).get(role)
+    if a is None or k is None:
+        return a
+    return a[k] if k < len(a) else None
 
 
 def _arg(x, grp):
@@ -530,7 +540,7 @@ def _run(case, op, np, ops, S):
         fk = _arr(case['fk'], 'int64') if case['form'] == 'a' else _kfield(case, 'fk', _arr(case['fk'], 'int64'), 'int64', jh5)
         vdt = case.get('vdt', 'int32')
         col = _tcol if case.get('typed') else _col
-        vals = _tarr(case['vals'], vdt) if case['form'] == 'a' else _nfield(case['vals'], vdt, jh5)
+        vals = _payload('n', case['vals'], case['form'], jh5, vdt, _pat(case, 'vals'))
         kw = {}
         if case.get('sp'):
             # the caller supplies the spans of the foreign-key indices (rarely used argument)
@@ -569,7 +579,7 @@ def _run_oml(case, np, ops, S):
         return _reg(case, role, 0, make)
     L = key('L', case['L'])
     R = key('R', case['R'])
-    srcs = tuple(_reg(case, 'srcs', k, (lambda k=k: _payload('n', case['srcs'][k], fa, h5, sdt[k]))) for k in range(n))
+    srcs = tuple(_reg(case, 'srcs', k, (lambda k=k: _payload('n', case['srcs'][k], fa, h5, sdt[k], _pat(case, 'srcs', k)))) for k in range(n))
     sinks = None
     if form == 'as':
         sinks = tuple(_reg(case, 'sinks', k, (lambda k=k: _full(len(case['L']), case.get('fill', 0), kdt[k])))
@@ -614,8 +624,8 @@ def _run_omi(case, np, ops, S):
     ldt = case.get('ldt') or ['int32'] * len(case['lsrcs'])
     rdt = case.get('rdt') or ['int32'] * len(case['rsrcs'])
     _cols_ = (lambda t: None if t is None else [_tcol(x) for x in t]) if case.get('typed') else _cols
-    ls = tuple(_payload('n', c, fa, h5, d) for c, d in zip(case['lsrcs'], ldt))
-    rs = tuple(_payload('n', c, fa, h5, d) for c, d in zip(case['rsrcs'], rdt))
+    ls = tuple(_payload('n', c, fa, h5, d, _pat(case, 'lsrcs', k)) for k, (c, d) in enumerate(zip(case['lsrcs'], ldt)))
+    rs = tuple(_payload('n', c, fa, h5, d, _pat(case, 'rsrcs', k)) for k, (c, d) in enumerate(zip(case['rsrcs'], rdt)))
     lsk = rsk = None
     if form == 'as':
         n = case['n']
@@ -651,8 +661,8 @@ def _run_merge(case, np, ops, S):
     def pdt(p):
         return p[2] if len(p) > 2 else 'int32'
 
-    def pays(ps):
-        return tuple(_payload(p[0], p[1], form, h5, pdt(p)) for p in ps)
+    def pays(ps, role):
+        return tuple(_payload(p[0], p[1], form, h5, pdt(p), _pat(case, role, k)) for k, p in enumerate(ps))
 
     def writers(ps):
         if not case['wr']:
@@ -668,14 +678,14 @@ def _run_merge(case, np, ops, S):
         return None if t is None else [col(x) for x in t]
 
     if op == 'ml':
-        p = pays(case['rp']); w = writers(case['rp'])
+        p = pays(case['rp'], 'rp'); w = writers(case['rp'])
         ret = S.merge_left(L, R, right_fields=p, right_writers=w)
         return [cols(ret), cols(w)]
     if op == 'mr':
-        p = pays(case['lp']); w = writers(case['lp'])
+        p = pays(case['lp'], 'lp'); w = writers(case['lp'])
         ret = S.merge_right(L, R, left_fields=p, left_writers=w)
         return [cols(ret), cols(w)]
-    lp, rp = pays(case['lp']), pays(case['rp'])
+    lp, rp = pays(case['lp'], 'lp'), pays(case['rp'], 'rp')
     lw, rw = writers(case['lp']), writers(case['rp'])
     ret = S.merge_inner(L, R, left_fields=lp, left_writers=lw, right_fields=rp, right_writers=rw)
     return [[cols(ret[0]), cols(ret[1])], None if lw is None else [cols(lw), cols(rw)]]
@@ -762,6 +772,9 @@ def to_val(case):
     raise ValueError(op)
 
 
+KEYROLES = ('L', 'R', 'T', 'F', 'fk')
+
+
 def _argpos(c, role):
     """position of the key column `role` in the wire form of call c"""
     op = c['op']
@@ -785,7 +798,7 @@ def _world_steps(calls):
     for c in calls:
         v = to_val(c)
         refs = []
-        for role in sorted(c.get('at') or {}):
+        for role in sorted(r for r in (c.get('at') or {}) if r in KEYROLES):
             at = c['at'][role]
             f = fid.setdefault(at[0], len(fid))
             n = nid.setdefault(at[1], len(nid))
@@ -1212,7 +1225,9 @@ def _world_features(calls):
     """what the named HDF5 columns of a history do to each other (Model/SessionWorld.v)"""
     f, seen = [], []            # seen: (frame, name, mode, dtype, content) of every column mention so far
     for c in calls:
-        for role in sorted(c.get('at') or {}):
+        pl = [a for r, v in (c.get('at') or {}).items() if r not in KEYROLES for a in (v if isinstance(v[0], list) or v[0] is None else [v]) if a]
+        if pl and 'world:named-hdf5-payload-columns' not in f: f.append('world:named-hdf5-payload-columns')
+        for role in sorted(r for r in (c.get('at') or {}) if r in KEYROLES):
             at = c['at'][role]
             xs = c[role]
             dt = 'int64' if role == 'fk' else (KMAPS[c['km']][0] if c.get('km') else c.get('kt', 'int32'))
@@ -1855,6 +1870,9 @@ WT = {
                                                                'form': ['fs', 'f'][v % 2], 'h5': 1, 'ldt': [d], 'rdt': [e],
                                                                'lsrcs': [_tsrc(len(Q), d)], 'rsrcs': [_tsrc(len(P), e, 1)]}),
 }
+# payload roles of each template and the table (0: the primary key's, 1: the secondary key's) their columns belong to
+WPAY = {'gi': [], 'join': [('vals', 1)], 'ml': [('rp', 0)], 'mr': [('lp', 0)], 'mi': [('lp', 1), ('rp', 0)], 'oml': [('srcs', 0)],
+        'omi': [('lsrcs', 1), ('rsrcs', 0)]}
 WNAMES = list(WT)
 # where the columns of a LATER call live relative to the first call's ('d0/a':'id' and 'd0/c':'pid')
 WPLACE = {
@@ -1870,14 +1888,38 @@ WMODES = ['other-frame', 'other-dataset', 'in-place', 'rewritten', 'replaced', '
 WKM = [None, 'i64', 'i64p53', 'S8']
 
 
-def _wcall(t, n, v, place, cnt, km=None):
+def _wcall(t, n, v, place, cnt, km=None, dc=None, po=0):
+    """template t on key columns of n rows, content variant v, living at `place`; dc selects the payload dtypes, po rotates
+    the payload contents (two calls with equal dc and different po: same names, lengths and dtypes, other values)"""
     pr, pk, sr, sk, build = WT[t]
-    d = DTYPES[(3 * cnt) % len(DTYPES)]
-    e = DTYPES[(3 * cnt + 7) % len(DTYPES)]
+    dc = cnt if dc is None else dc
+    d = DTYPES[(3 * dc) % len(DTYPES)]
+    e = DTYPES[(3 * dc + 7) % len(DTYPES)]
     c = build(_wkeys(pk, n, v), _wkeys(sk, n + 1, v) if sr else None, cnt, d, e)
+    if po:
+        for role, dts in (('srcs', 'sdt'), ('lsrcs', 'ldt'), ('rsrcs', 'rdt')):
+            if role in c:
+                c[role] = [_tsrc(len(col), dt, po + 3 * k) for k, (col, dt) in enumerate(zip(c[role], c[dts]))]
+        for role in ('lp', 'rp'):
+            if role in c:
+                c[role] = [[p[0], _tsrc(len(p[1]), p[2], po + 3 * k), p[2]] if p[0] == 'n' else [p[0], _istr(len(p[1]), po + k)]
+                           for k, p in enumerate(c[role])]
+        if 'vals' in c:
+            c['vals'] = _tsrc(len(c['vals']), c['vdt'], po)
     at = {pr: list(WPLACE[place][0])}
     if sr:
         at[sr] = list(WPLACE[place][1])
+    # numeric payload columns live next to their key column under the names val0, val1 ... (the names collide between
+    # the tables exactly as the key names do; the model receives their content with the call)
+    for role, slot in WPAY[t.split('-')[0]]:
+        fr, mode = WPLACE[place][slot][0], (WPLACE[place][slot][2:] or [0])[0]
+        suffix = '2' if place == 'other-name' else ''
+        if role == 'vals':
+            at[role] = [fr, 'val' + suffix, mode]
+        elif role in ('lp', 'rp'):
+            at[role] = [[fr, 'val%d%s' % (k, suffix), mode] if p[0] == 'n' else None for k, p in enumerate(c[role])]
+        else:
+            at[role] = [[fr, 'val%d%s' % (k, suffix), mode] for k in range(len(c[role]))]
     c['at'] = at
     if km is not None and t != 'join':
         c['km'] = km
@@ -1898,7 +1940,9 @@ def _gen_world(big, rng):
                 n = 4 + cnt % 2
                 km = WKM[cnt % len(WKM)]
                 km2 = WKM[(cnt + 1) % len(WKM)] if cnt % 5 == 0 else km          # the dtype under the name changes
-                yield {'op': 'hist', 'calls': [_wcall(a, n, 0, 'first', cnt, km), _wcall(b, n + dl, v, m, cnt + 1, km2)]}
+                dc2 = cnt + 1 if cnt % 4 == 3 else cnt                             # payload dtypes: mostly the same in both calls
+                yield {'op': 'hist', 'calls': [_wcall(a, n, 0, 'first', cnt, km),
+                                               _wcall(b, n + dl, v, m, cnt + 1, km2, dc=dc2, po=1 if (v or cnt % 2) else 0)]}
     # the first call again after a same-named column was used / after its own column was overwritten or replaced
     for _ in range(1500 if big else 200):
         cnt += 1
@@ -1907,12 +1951,12 @@ def _gen_world(big, rng):
         km = rng.choice(WKM)
         m = rng.choice(WMODES)
         c1 = _wcall(a, n, 0, 'first', cnt, km)
-        c2 = _wcall(b, n + rng.choice([0, 0, 1]), rng.randint(0, 1), m, cnt + 1, km)
+        c2 = _wcall(b, n + rng.choice([0, 0, 1]), rng.randint(0, 1), m, cnt + 1, km, dc=cnt, po=rng.randint(0, 2))
         back = rng.choice(['in-place', 'rewritten', 'replaced'])
-        c3 = _wcall(a, n, rng.choice([0, 0, 1]), back, cnt, km)
+        c3 = _wcall(a, n, rng.choice([0, 0, 1]), back, cnt, km, po=rng.choice([0, 0, 3]))
         calls = [c1, c2, c3]
         if rng.random() < 0.3:
-            calls.append(_wcall(rng.choice(WNAMES), n, 1, rng.choice(WMODES), cnt + 2, km))
+            calls.append(_wcall(rng.choice(WNAMES), n, 1, rng.choice(WMODES), cnt + 2, km, dc=cnt, po=4))
         yield {'op': 'hist', 'calls': calls}
     # change-directed: column lengths around every new small literal of the tree under test
     for K in hot.hot_sizes():
@@ -1922,7 +1966,7 @@ def _gen_world(big, rng):
             for t in WNAMES:
                 for m in ('other-frame', 'in-place', 'replaced'):
                     cnt += 1
-                    yield {'op': 'hist', 'calls': [_wcall(t, n, 0, 'first', cnt), _wcall(t, n, 1, m, cnt + 1)]}
+                    yield {'op': 'hist', 'calls': [_wcall(t, n, 0, 'first', cnt), _wcall(t, n, 1, m, cnt + 1, dc=cnt, po=1)]}
 
 
 def _gen_alias(big, rng):
@@ -2438,7 +2482,16 @@ RULE = ('exhaustive over order-types: every pair of non-decreasing key sequences
         'the other side\'s range that collide with a key there under a cast (c + s*2^w, c in {-1,1,2,7}: wrap-around at '
         '8/16/32/64 bits, sign reinterpretation) through ordered_merge_left/right (10 forms), ordered_merge_inner (4 forms), '
         'merge_left/right/inner and get_index; an integer key column against a float32/float64 one holding halves (a cast '
-        'to the integer dtype truncates 1.5 to the key 1) in the same forms (quick 2 pairs, thorough 20).')
+        'to the integer dtype truncates 1.5 to the key 1) in the same forms (quick 2 pairs, thorough 20). '
+        'NAMED HDF5 COLUMNS (histories of calls on one Session whose key and numeric payload columns are HDF5-backed fields '
+        'addressed by dataset/dataframe/column name): every ordered pair of 9 call templates (get_index, join, merge_left/'
+        'right/inner, ordered_merge_left streamed / field / field-sink forms, ordered_merge_inner) x where the second call\'s '
+        'columns live (same column names in another dataframe / in another dataset; the same path overwritten in place, '
+        'cleared and rewritten, replaced by a same-named new field; other names: control) x {same, other length} x {same, '
+        'other content} (all 24 combinations for equal templates and pairs with get_index, 6 of 24 rotating for the others; '
+        'thorough: all), key dtypes int32/int64/beyond 2^53/S8 (changing under the name in 1 pair of 5), payload dtypes '
+        'equal in 3 pairs of 4 with other values; 200 (thorough 1500) random histories of 3-4 calls that return to the '
+        'first column after it was overwritten / replaced; column lengths K-1, K, K+1 around every new small literal K.')
 EXHAUSTIVE = {'quick': True, 'thorough': True}
 TRUSTED = ['numba code generation; numpy fancy indexing / boolean masks; MemoryField write / write_part (modelled as append)',
            'key columns: the model joins the key SYMBOLS, the real call their image under a strictly increasing map into the key '
@@ -2449,6 +2502,10 @@ TRUSTED = ['numba code generation; numpy fancy indexing / boolean masks; MemoryF
            'pandas.merge(how=left) = rows of the relational left join in order, pandas.merge(how=inner) = some permutation of '
            'the matching pairs — explicit premises of the merge_* theorems, exercised here on every generated key pair',
            'Python dict semantics in get_index (modelled as an association list, newest binding first)',
+           'named HDF5 columns: a Field argument is a handle to dataset/dataframe/column read at call time (Model/SessionWorld.v: '
+           'world = columns by full path, newest first); the harness writes every key column a call names before the call and '
+           'sends the call with holes at those argument positions, the model fills them from its world by full path; named '
+           'payload columns travel with the call; destination fields are fresh unnamed fields',
            'the chunk size of the streamed form is varied by wrapping the operations-module attributes; the production '
            'default 2^20 is run on the real code and compared with the model at a chunk size just beyond both inputs '
            '(equal by the chunking-independence theorems)']
@@ -2466,7 +2523,12 @@ ASSUMPTIONS = ['ordered_* forms: keys sorted ascending, uniqueness flags truthfu
                'fewer than 2^62 rows (INVALID_INDEX is not a row number); payload columns have the length of their key column']
 TECHNIQUE = ('Coq proof (faithful model of the kernels, Session plumbing and — reused from C03/C04 — the streamed generators '
              '= relational join + payload mapping) + exhaustive small-scope differential correspondence against the repository')
-LEVEL_TEXT = ('9 theorems in coq/Props/C19_flags.v about coq/Model/FlagForm.v (the type form of the uniqueness hints: a hint compared '
+LEVEL_TEXT = ('4 theorems in coq/Props/C19_world.v about coq/Model/SessionWorld.v (histories of calls on one Session whose arguments '
+              'are named HDF5 columns: the result of a call is the result of that call alone on the columns its handles point to '
+              'at that moment = the last column written to each FULL path; a same-named column of another dataframe / dataset is '
+              'another column; earlier steps that do not write to those paths leave the result as in a fresh Session: '
+              'session_world_history_call_alone / _lookup_last_write / _same_name_other_frame / _history_call_frame); '
+              '9 theorems in coq/Props/C19_flags.v about coq/Model/FlagForm.v (the type form of the uniqueness hints: a hint compared '
               'by value is its truth value in every form, so ordered_merge_left/right/inner with numpy-bool / integer hints ARE the '
               'calls with Python bools; the identity test `is False` is refuted — F-C19g, ordered_merge_inner as found); '
               '6 theorems in coq/Props/C19_typed.v about coq/Model/SessionMergeTyped.v (element types: every payload of a '
